@@ -154,13 +154,19 @@ pub struct WDim {
 
 #[derive(Clone, Debug, PartialEq, Eq)]
 pub struct WStructure {
+    /// 0 = V1 (pinned release), 1 = V2 (carries the next attribute id)
     pub version: u64,
+    pub next_id: Option<u64>,
     pub dims: Vec<WDim>,
 }
 
 impl WStructure {
     pub fn read(r: &mut Reader) -> R<Self> {
         let version = r.leb("structure.version")?;
+        if version > 1 {
+            return Err(format!("unknown structure version {version}"));
+        }
+        let next_id = if version == 1 { Some(r.leb("structure.next_id")?) } else { None };
         let n = r.count("structure.n_dims")?;
         let mut dims = Vec::new();
         for _ in 0..n {
@@ -177,10 +183,13 @@ impl WStructure {
             }
             dims.push(WDim { name, ordered, attrs });
         }
-        Ok(Self { version, dims })
+        Ok(Self { version, next_id, dims })
     }
     pub fn write(&self, out: &mut Bytes) {
         leb_encode(self.version, out);
+        if let Some(n) = self.next_id {
+            leb_encode(n, out);
+        }
         leb_encode(self.dims.len() as u64, out);
         for d in &self.dims {
             put_vec(d.name.as_bytes(), out);
